@@ -1,4 +1,691 @@
-//! C18 — stub, not built yet.
+//! C18 — text encodings of binary data (base32, base32hex = Crockford, base64, zero85 and their `>` decoders).
+//! Correspondence: `C18 <word> <operands bottom-first>` → canonical outcome + stack; the model must
+//! reproduce the dependency crates' exact output strings and nil/bit-string decisions.
+//! Oracle (implementation only):
+//!   * decode(encode(x)) = x for every byte string x, whatever form (string, vector, nested vector,
+//!     bit-string at any alignment) carried the bytes, and equal bytes encode to equal text;
+//!   * RFC 4648 / ZeroMQ known-answer vectors;
+//!   * decoding arbitrary text leaves exactly one cell, nil or a bit-string — never an error, never a
+//!     panic; text with a byte outside alphabet ∪ padding decodes to nil; a decoded bit-string is stable
+//!     under encode → decode;
+//!   * an encoder fails exactly when `>bitstr` fails (same error) or the bit length is not a multiple of 8
+//!     (ToBytestrError).
+use super::gen::*;
+use crate::canon;
 use crate::Ctx;
+use xeh::prelude::*;
 
-pub fn run(_ctx: &mut Ctx) {}
+const ENC: &[&str] = &["base32", "base32hex", "base64", "zero85"];
+
+fn dec_of(enc: &str) -> String {
+    format!("{}>", enc)
+}
+
+const RFC32: &str = "ABCDEFGHIJKLMNOPQRSTUVWXYZ234567";
+const CROCK: &str = "0123456789ABCDEFGHJKMNPQRSTVWXYZ";
+const B64: &str = "ABCDEFGHIJKLMNOPQRSTUVWXYZabcdefghijklmnopqrstuvwxyz0123456789+/";
+const Z85: &str = "0123456789abcdefghijklmnopqrstuvwxyzABCDEFGHIJKLMNOPQRSTUVWXYZ.-:+=^!/*?&<>()[]{}@%$#";
+
+/// bytes a decoder may accept at all (alphabet ∪ padding, with the crate's documented leniency)
+fn acceptable(enc: &str, b: u8) -> bool {
+    match enc {
+        "base32" => b == b'=' || RFC32.as_bytes().contains(&b.to_ascii_uppercase()),
+        // Crockford: lower case, O→0, I/L→1; U is excluded; no padding
+        "base32hex" => CROCK.as_bytes().contains(&b.to_ascii_uppercase()) || matches!(b.to_ascii_uppercase(), b'O' | b'I' | b'L'),
+        "base64" => b == b'=' || B64.as_bytes().contains(&b),
+        _ => Z85.as_bytes().contains(&b),
+    }
+}
+
+fn alphabet(enc: &str) -> &'static str {
+    match enc {
+        "base32" => RFC32,
+        "base32hex" => CROCK,
+        "base64" => B64,
+        _ => Z85,
+    }
+}
+
+struct Run {
+    out: String,
+    top: Option<Cell>,
+    depth: usize,
+}
+
+fn run_word(base: &Xstate, word: &str, args: &[Cell]) -> Run {
+    let mut xs = base.clone();
+    let r = crate::guarded(|| {
+        for a in args {
+            xs.push_data(a.clone()).unwrap();
+        }
+        let res = xs.eval(word);
+        let st = canon::stack(&xs);
+        (res, st)
+    });
+    match r {
+        None => Run { out: "panic".into(), top: None, depth: 0 },
+        Some((Ok(()), st)) => Run { out: canon::ok_stack(&st), top: st.last().cloned(), depth: st.len() },
+        Some((Err(e), st)) => Run { out: format!("err {}", canon::err(&e)), top: None, depth: st.len() },
+    }
+}
+
+fn line(word: &str, args: &[Cell]) -> String {
+    if args.is_empty() {
+        format!("C18 {}", word)
+    } else {
+        format!("C18 {} {}", word, canon::stack_str(args))
+    }
+}
+
+/// run + record the correspondence case
+fn emit(ctx: &mut Ctx, base: &Xstate, word: &str, args: &[Cell]) -> Run {
+    let r = run_word(base, word, args);
+    ctx.case(line(word, args), r.out.clone());
+    r
+}
+
+fn bytes_cell(b: &[u8]) -> Cell {
+    Cell::from(Xbitstr::from(b.to_vec()))
+}
+
+fn bits_of_bytes(b: &[u8]) -> Vec<bool> {
+    let mut v = Vec::with_capacity(b.len() * 8);
+    for x in b {
+        for k in (0..8).rev() {
+            v.push((x >> k) & 1 == 1);
+        }
+    }
+    v
+}
+
+/// the same bytes sitting at bit offset `align` inside a longer buffer (takes the copying path of `bytestr`)
+fn unaligned_cell(r: &mut crate::rng::Rng, b: &[u8], align: usize) -> Cell {
+    let mut bits: Vec<bool> = (0..align).map(|_| r.bool()).collect();
+    bits.extend(bits_of_bytes(b));
+    let trail = r.below(12);
+    for _ in 0..trail {
+        bits.push(r.bool());
+    }
+    let whole = bitstr_from_bits(&bits);
+    Cell::from(whole.substr(align, align + b.len() * 8).unwrap())
+}
+
+fn str_of_cell(c: &Cell) -> Option<String> {
+    match c {
+        Cell::Str(s) => Some(s.to_string()),
+        _ => None,
+    }
+}
+
+fn bytes_of_cell(c: &Cell) -> Option<Vec<u8>> {
+    match c {
+        Cell::Bitstr(b) => b.to_bytes(),
+        _ => None,
+    }
+}
+
+/// encode `input` (any carrier of the bytes `b`) and decode the result: the round-trip statement
+fn roundtrip(ctx: &mut Ctx, base: &Xstate, enc: &str, input: Cell, b: &[u8], sentinel: bool) -> Option<String> {
+    let mut args = vec![];
+    if sentinel {
+        args.push(Cell::Int(77));
+    }
+    args.push(input);
+    let r = emit(ctx, base, enc, &args);
+    let text = r.top.as_ref().and_then(str_of_cell);
+    let want_depth = args.len();
+    let case = line(enc, &args);
+    if r.depth != want_depth || text.is_none() {
+        ctx.oracle_fail(case, "a string replacing the operand".into(), r.out.clone());
+        return None;
+    }
+    let text = text.unwrap();
+    // output uses only the alphabet (+ '=' / '#')
+    let clean = text.bytes().all(|c| acceptable(enc, c) || (enc == "zero85" && c == b'#'));
+    ctx.check(clean, || case.clone(), || "text over the alphabet".into(), || text.clone());
+    let dargs = vec![Cell::from(text.clone())];
+    let d = emit(ctx, base, &dec_of(enc), &dargs);
+    let back = d.top.as_ref().and_then(bytes_of_cell);
+    ctx.check(
+        d.depth == 1 && back.as_deref() == Some(b),
+        || format!("{} ; {}", case, line(&dec_of(enc), &dargs)),
+        || format!("ok b{}", bits_of_bytes(b).iter().map(|x| if *x { '1' } else { '0' }).collect::<String>()),
+        || d.out.clone(),
+    );
+    Some(text)
+}
+
+fn patterns(len: usize, thorough: bool) -> Vec<(&'static str, Vec<u8>)> {
+    let mut v: Vec<(&'static str, Vec<u8>)> = vec![
+        ("zero", vec![0u8; len]),
+        ("ff", vec![0xffu8; len]),
+        ("count", (0..len).map(|i| i as u8).collect()),
+        ("count-hi", (0..len).map(|i| (255 - i) as u8).collect()),
+        ("alt", (0..len).map(|i| if i % 2 == 0 { 0xaa } else { 0x55 }).collect()),
+    ];
+    // single set bit / single clear bit, at the positions around every chunk boundary
+    let nbits = len * 8;
+    let step = if thorough { 1 } else { 5 };
+    let mut p = 0;
+    while p < nbits {
+        let mut one = vec![0u8; len];
+        one[p / 8] |= 0x80 >> (p % 8);
+        v.push(("one-bit", one));
+        let mut hole = vec![0xffu8; len];
+        hole[p / 8] &= !(0x80 >> (p % 8));
+        v.push(("one-hole", hole));
+        p += step;
+    }
+    if nbits > 0 {
+        let mut last = vec![0u8; len];
+        last[len - 1] = 1;
+        v.push(("one-bit", last));
+    }
+    v
+}
+
+/// a value that `>bitstr` turns into exactly the bytes `b`
+fn carrier(ctx: &mut Ctx, b: &[u8], depth: usize) -> (Cell, &'static str) {
+    match ctx.rng.below(7) {
+        0 => (bytes_cell(b), "bitstr:aligned"),
+        1 | 2 => {
+            let a = 1 + ctx.rng.below(7);
+            (unaligned_cell(&mut ctx.rng, b, a), "bitstr:unaligned")
+        }
+        3 => {
+            let mut v = Xvec::new();
+            for x in b {
+                v.push_back_mut(Cell::Int(*x as i128));
+            }
+            (Cell::Vector(v), "vec:ints")
+        }
+        4 => match String::from_utf8(b.to_vec()) {
+            Ok(s) => (Cell::from(s), "str"),
+            Err(_) => (bytes_cell(b), "bitstr:aligned"),
+        },
+        _ => {
+            // mixed vector: split the bit sequence at arbitrary (not byte-aligned) points; pieces are
+            // ints (whole bytes), bit-strings of any length, strings (valid utf-8 pieces), nested vectors
+            let bits = bits_of_bytes(b);
+            let mut v = Xvec::new();
+            let mut pos = 0;
+            while pos < bits.len() {
+                let byte_aligned = pos % 8 == 0;
+                let choice = ctx.rng.below(5);
+                if byte_aligned && choice == 0 {
+                    v.push_back_mut(Cell::Int(b[pos / 8] as i128));
+                    pos += 8;
+                } else if byte_aligned && choice == 1 && b[pos / 8] < 0x80 {
+                    let mut e = pos / 8;
+                    while e < b.len() && b[e] < 0x80 && e - pos / 8 < 4 {
+                        e += 1;
+                    }
+                    v.push_back_mut(Cell::from(String::from_utf8(b[pos / 8..e].to_vec()).unwrap()));
+                    pos = e * 8;
+                } else if byte_aligned && choice == 2 && depth < 3 {
+                    let n = 1 + ctx.rng.below(((bits.len() - pos) / 8).min(5));
+                    let (inner, _) = carrier(ctx, &b[pos / 8..pos / 8 + n], depth + 1);
+                    let inner = match inner {
+                        Cell::Vector(_) => inner,
+                        other => {
+                            let mut w = Xvec::new();
+                            w.push_back_mut(other);
+                            Cell::Vector(w)
+                        }
+                    };
+                    v.push_back_mut(inner);
+                    pos += n * 8;
+                } else {
+                    let n = 1 + ctx.rng.below((bits.len() - pos).min(19));
+                    v.push_back_mut(Cell::from(bitstr_from_bits(&bits[pos..pos + n])));
+                    pos += n;
+                }
+            }
+            let c = Cell::Vector(v);
+            if ctx.rng.chance(15) {
+                (tag_it(&mut ctx.rng, c), "vec:mixed:tagged")
+            } else {
+                (c, "vec:mixed")
+            }
+        }
+    }
+}
+
+/// encoder input that should be rejected (or whose bit length is not a multiple of 8)
+fn bad_carrier(ctx: &mut Ctx) -> (Cell, &'static str) {
+    let n = ctx.rng.below(6);
+    let b: Vec<u8> = (0..n).map(|_| ctx.rng.next_u64() as u8).collect();
+    match ctx.rng.below(8) {
+        0 => {
+            // bit-string whose length is not a multiple of 8, any alignment
+            let len = 1 + ctx.rng.below(70);
+            let len = if len % 8 == 0 { len + 1 } else { len };
+            let align = ctx.rng.below(8);
+            let bits: Vec<bool> = (0..align + len + 3).map(|_| ctx.rng.bool()).collect();
+            (Cell::from(bitstr_from_bits(&bits).substr(align, align + len).unwrap()), "bad:bitlen")
+        }
+        1 => {
+            let mut v = Xvec::new();
+            for x in &b {
+                v.push_back_mut(Cell::Int(*x as i128));
+            }
+            v.push_back_mut(Cell::from(bitstr_from_bits(&gen_bits(&mut ctx.rng, 7))));
+            (Cell::Vector(v), "bad:vec-bitlen")
+        }
+        2 => {
+            let mut v = Xvec::new();
+            for x in &b {
+                v.push_back_mut(Cell::Int(*x as i128));
+            }
+            let bad = *ctx.rng.pick(&[256i128, -1, 1000, i128::MAX, i128::MIN, -255, 65536]);
+            v.push_back_mut(Cell::Int(bad));
+            for x in &b {
+                v.push_back_mut(Cell::Int(*x as i128));
+            }
+            (Cell::Vector(v), "bad:int-range")
+        }
+        3 => {
+            let mut v = Xvec::new();
+            for x in &b {
+                v.push_back_mut(Cell::Int(*x as i128));
+            }
+            let other = match ctx.rng.below(5) {
+                0 => Cell::Nil,
+                1 => Cell::Flag(true),
+                2 => Cell::Real(1.5),
+                3 => Cell::Map(Xmap::new()),
+                _ => Cell::Nil.insert_tag(Cell::from("t"), Cell::Int(1)),
+            };
+            v.push_back_mut(other);
+            v.push_back_mut(Cell::Int(300));
+            (Cell::Vector(v), "bad:elem-type")
+        }
+        4 => {
+            // error deep inside a nested vector; an earlier sibling is fine
+            let mut inner = Xvec::new();
+            inner.push_back_mut(Cell::Int(1));
+            inner.push_back_mut(if ctx.rng.bool() { Cell::Int(256) } else { Cell::Flag(false) });
+            let mut v = Xvec::new();
+            v.push_back_mut(Cell::from("ok"));
+            v.push_back_mut(Cell::Vector(inner));
+            v.push_back_mut(Cell::Nil);
+            (Cell::Vector(v), "bad:nested")
+        }
+        5 => {
+            let c = match ctx.rng.below(5) {
+                0 => Cell::Int(ctx.rng.range(-3, 300) as i128),
+                1 => Cell::Nil,
+                2 => Cell::Real(2.0),
+                3 => Cell::Flag(false),
+                _ => Cell::Map(Xmap::new()),
+            };
+            (c, "bad:top-type")
+        }
+        6 => (tag_it(&mut ctx.rng, Cell::Int(65)), "bad:tagged-int"),
+        _ => {
+            // tagged elements are looked through (`x.value()`)
+            let mut v = Xvec::new();
+            v.push_back_mut(tag_it(&mut ctx.rng, Cell::Int(65)));
+            v.push_back_mut(tag_it(&mut ctx.rng, Cell::from("z")));
+            v.push_back_mut(tag_it(&mut ctx.rng, bytes_cell(&b)));
+            (Cell::Vector(v), "ok:tagged-elems")
+        }
+    }
+}
+
+/// "encoding accepts the same inputs as >bitstr"
+fn accept_oracle(ctx: &mut Ctx, base: &Xstate, enc: &str, input: &Cell) {
+    let args = vec![input.clone()];
+    let e = emit(ctx, base, enc, &args);
+    let g = emit(ctx, base, ">bitstr", &args);
+    let case = line(enc, &args);
+    if e.out == "panic" || g.out == "panic" {
+        return ctx.oracle_fail(case, "no panic".into(), e.out);
+    }
+    match g.top.as_ref() {
+        None => {
+            // >bitstr failed: the encoder fails with the same error
+            ctx.check(e.out == g.out, || case.clone(), || g.out.clone(), || e.out.clone());
+        }
+        Some(Cell::Bitstr(bs)) => {
+            if bs.len() % 8 == 0 {
+                let ok = e.depth == 1 && matches!(e.top, Some(Cell::Str(_)));
+                ctx.check(ok, || case.clone(), || "accepted (>bitstr accepts it, length is a multiple of 8)".into(), || e.out.clone());
+                // and the text decodes back to exactly what >bitstr produced
+                if let Some(t) = e.top.as_ref().and_then(str_of_cell) {
+                    let d = run_word(base, &dec_of(enc), &[Cell::from(t)]);
+                    let same = match (&d.top, bs.to_bytes()) {
+                        (Some(Cell::Bitstr(x)), Some(want)) => x.to_bytes() == Some(want),
+                        _ => false,
+                    };
+                    ctx.check(same, || case.clone(), || format!("decodes back to {}", g.out), || d.out.clone());
+                }
+            } else {
+                ctx.check(e.out == "err ToBytestrError", || case.clone(), || "err ToBytestrError".into(), || e.out.clone());
+            }
+        }
+        Some(_) => ctx.oracle_fail(case, ">bitstr leaves a bit-string".into(), g.out),
+    }
+}
+
+/// decoder on arbitrary text
+fn decode_oracle(ctx: &mut Ctx, base: &Xstate, enc: &str, text: &str, sentinel: bool) {
+    let dec = dec_of(enc);
+    let mut args = vec![];
+    if sentinel {
+        args.push(Cell::from("below"));
+    }
+    args.push(Cell::from(text.to_string()));
+    let d = emit(ctx, base, &dec, &args);
+    let case = line(&dec, &args);
+    let well_formed = d.depth == args.len() && matches!(d.top, Some(Cell::Nil) | Some(Cell::Bitstr(_)));
+    if !well_formed {
+        return ctx.oracle_fail(case, "nil or a bit-string on top, nothing else touched".into(), d.out);
+    }
+    ctx.oracle_ok();
+    let is_nil = matches!(d.top, Some(Cell::Nil));
+    ctx.tag(if is_nil { "decode:nil" } else { "decode:value" });
+    if text.bytes().any(|b| !acceptable(enc, b)) {
+        ctx.check(is_nil, || case.clone(), || "nil (a byte outside alphabet ∪ padding)".into(), || d.out.clone());
+    }
+    if let Some(Cell::Bitstr(bs)) = &d.top {
+        // stability: re-encode and decode again
+        let ok_len = bs.len() % 8 == 0;
+        let e = run_word(base, enc, &[Cell::Bitstr(bs.clone())]);
+        let again = e.top.as_ref().and_then(str_of_cell).map(|t| run_word(base, &dec, &[Cell::from(t)]));
+        let stable = match again.as_ref().and_then(|r| r.top.as_ref()) {
+            Some(Cell::Bitstr(b2)) => b2.to_bytes() == bs.to_bytes(),
+            _ => false,
+        };
+        ctx.check(ok_len && stable, || case.clone(), || "whole bytes, stable under encode → decode".into(), || format!("{} then {}", e.out, again.map(|r| r.out).unwrap_or_default()));
+    }
+}
+
+fn mutate(ctx: &mut Ctx, enc: &str, valid: &str) -> (String, &'static str) {
+    let mut s: Vec<char> = valid.chars().collect();
+    let outside: &[char] = &['`', ' ', '\n', '\t', '~', '|', '"', '\\', ',', ';', '_', '\'', '\u{0}', '\u{7f}', 'é', '日', '😀', '\u{80}'];
+    let r = ctx.rng.below(14);
+    match r {
+        0 if !s.is_empty() => {
+            let i = ctx.rng.below(s.len());
+            s[i] = *ctx.rng.pick(outside);
+            (s.into_iter().collect(), "mut:replace-outside")
+        }
+        1 if !s.is_empty() => {
+            let i = ctx.rng.below(s.len());
+            let a: Vec<char> = alphabet(enc).chars().collect();
+            s[i] = *ctx.rng.pick(&a);
+            (s.into_iter().collect(), "mut:replace-inside")
+        }
+        2 if !s.is_empty() => {
+            let k = 1 + ctx.rng.below(s.len().min(6));
+            s.truncate(s.len() - k);
+            (s.into_iter().collect(), "mut:truncate")
+        }
+        3 => {
+            let t: String = valid.trim_end_matches('=').to_string();
+            (t, "mut:padding-removed")
+        }
+        4 => {
+            let k = 1 + ctx.rng.below(8);
+            let pad = if enc == "zero85" { '#' } else { '=' };
+            for _ in 0..k {
+                s.push(pad);
+            }
+            (s.into_iter().collect(), "mut:padding-added")
+        }
+        5 => (valid.to_ascii_lowercase(), "mut:lower"),
+        6 => (valid.to_ascii_uppercase(), "mut:upper"),
+        7 => {
+            let i = ctx.rng.below(s.len() + 1);
+            s.insert(i, *ctx.rng.pick(&[' ', '\n', '\t', '\r']));
+            (s.into_iter().collect(), "mut:whitespace")
+        }
+        8 if !s.is_empty() => {
+            let i = ctx.rng.below(s.len());
+            s[i] = if enc == "zero85" { '#' } else { '=' };
+            (s.into_iter().collect(), "mut:pad-inside")
+        }
+        9 if s.len() >= 2 => {
+            let i = ctx.rng.below(s.len() - 1);
+            s.swap(i, i + 1);
+            (s.into_iter().collect(), "mut:swap")
+        }
+        10 if !s.is_empty() => {
+            // bump the last letter before the padding: non-canonical trailing bits
+            let a: Vec<char> = alphabet(enc).chars().collect();
+            let mut i = s.len() - 1;
+            while i > 0 && (s[i] == '=' || s[i] == '#') {
+                i -= 1;
+            }
+            if let Some(p) = a.iter().position(|c| *c == s[i]) {
+                s[i] = a[(p + 1) % a.len()];
+            }
+            (s.into_iter().collect(), "mut:trailing-bits")
+        }
+        11 => {
+            // duplicate: two encodings back to back (padding in the middle)
+            (format!("{}{}", valid, valid), "mut:concat")
+        }
+        12 if !s.is_empty() => {
+            let i = ctx.rng.below(s.len());
+            s.remove(i);
+            (s.into_iter().collect(), "mut:delete")
+        }
+        _ => {
+            let a: Vec<char> = alphabet(enc).chars().collect();
+            let i = ctx.rng.below(s.len() + 1);
+            s.insert(i, *ctx.rng.pick(&a));
+            (s.into_iter().collect(), "mut:insert-inside")
+        }
+    }
+}
+
+fn random_text(ctx: &mut Ctx, enc: &str) -> (String, &'static str) {
+    let a: Vec<char> = alphabet(enc).chars().collect();
+    let n = ctx.rng.below(26);
+    match ctx.rng.below(6) {
+        0 | 1 => ((0..n).map(|_| *ctx.rng.pick(&a)).collect(), "text:alphabet"),
+        2 => {
+            // alphabet text of a length the format likes, then padding
+            let unit = match enc {
+                "base64" => 4,
+                "zero85" => 5,
+                _ => 8,
+            };
+            let total = unit * (1 + ctx.rng.below(4));
+            let pads = ctx.rng.below(unit.min(7) + 1);
+            let pad = if enc == "zero85" { '#' } else { '=' };
+            let front = enc == "zero85";
+            let body: String = (0..total - pads.min(total)).map(|_| *ctx.rng.pick(&a)).collect();
+            let padding: String = (0..pads.min(total)).map(|_| pad).collect();
+            if front {
+                // z85 tail: padding marks lead the last chunk
+                let keep = body.len() - body.len() % 5;
+                let (head, tail) = body.split_at(keep.min(body.len()));
+                (format!("{}{}{}", head, padding, tail), "text:shaped")
+            } else {
+                (format!("{}{}", body, padding), "text:shaped")
+            }
+        }
+        3 => ((0..n).map(|_| (32 + ctx.rng.below(95)) as u8 as char).collect(), "text:ascii"),
+        4 => {
+            let pool = ["", "=", "==", "====", "========", "#", "#####", "####0", "####1", "###00", "##000", "#0000", "00000#####", "#####00000", "#####0", "0####", "A", "AA", "A=", "=A", "A=======", "AAAAAAAA=", "é", "日本語", "😀😀", "\u{0}\u{0}\u{0}\u{0}", "    ", "%nSc0", "%nSc1", "@@@@@", "$$$$$"];
+            (ctx.rng.pick(&pool).to_string(), "text:pool")
+        }
+        _ => (gen_str(&mut ctx.rng), "text:any"),
+    }
+}
+
+/// known answers (RFC 4648 §10, Crockford from the crate's documentation, ZeroMQ rfc 32)
+fn known_answers(ctx: &mut Ctx, base: &Xstate) {
+    let kat: &[(&str, &[u8], &str)] = &[
+        ("base32", b"", ""),
+        ("base32", b"f", "MY======"),
+        ("base32", b"fo", "MZXQ===="),
+        ("base32", b"foo", "MZXW6==="),
+        ("base32", b"foob", "MZXW6YQ="),
+        ("base32", b"fooba", "MZXW6YTB"),
+        ("base32", b"foobar", "MZXW6YTBOI======"),
+        ("base64", b"", ""),
+        ("base64", b"f", "Zg=="),
+        ("base64", b"fo", "Zm8="),
+        ("base64", b"foo", "Zm9v"),
+        ("base64", b"foob", "Zm9vYg=="),
+        ("base64", b"fooba", "Zm9vYmE="),
+        ("base64", b"foobar", "Zm9vYmFy"),
+        ("base32hex", &[0xF8, 0x3E, 0x0F, 0x83, 0xE0], "Z0Z0Z0Z0"),
+        ("base32hex", &[0x07, 0xC1, 0xF0, 0x7C, 0x1F], "0Z0Z0Z0Z"),
+        ("base32hex", &[0x41, 0x31], "84RG"),
+        ("zero85", &[0x86, 0x4F, 0xD2, 0x6F, 0xB5, 0x59, 0xF7, 0x5B], "HelloWorld"),
+        ("zero85", b"", ""),
+    ];
+    for (enc, bytes, text) in kat {
+        let args = vec![bytes_cell(bytes)];
+        let e = emit(ctx, base, enc, &args);
+        let want = canon::ok_stack(&[Cell::from(text.to_string())]);
+        ctx.check(e.out == want, || line(enc, &args), || want.clone(), || e.out.clone());
+        let dargs = vec![Cell::from(text.to_string())];
+        let d = emit(ctx, base, &dec_of(enc), &dargs);
+        let wantd = canon::ok_stack(&[bytes_cell(bytes)]);
+        ctx.check(d.out == wantd, || line(&dec_of(enc), &dargs), || wantd.clone(), || d.out.clone());
+        ctx.tag("known-answer");
+    }
+}
+
+pub fn run(ctx: &mut Ctx) {
+    let base = Xstate::boot().unwrap();
+    known_answers(ctx, &base);
+
+    // 1. structured patterns, every length 0..=40, every encoding, aligned + every unaligned offset
+    let max_len = if ctx.thorough { 64 } else { 40 };
+    for len in 0..=max_len {
+        for (name, b) in patterns(len, ctx.thorough) {
+            for enc in ENC {
+                ctx.tag(&format!("pattern:{}", name));
+                ctx.tag(&format!("tail:{}:{}", enc, match *enc { "base64" => len % 3, "zero85" => len % 4, _ => len % 5 }));
+                let t0 = roundtrip(ctx, &base, enc, bytes_cell(&b), &b, false);
+                // one unaligned carrier per pattern (all seven offsets for the five basic patterns)
+                let aligns: Vec<usize> = if name.starts_with("one-") { vec![1 + (len + b.iter().map(|x| *x as usize).sum::<usize>()) % 7] } else { (1..8).collect() };
+                for a in aligns {
+                    ctx.tag(&format!("align:{}", a));
+                    let c = unaligned_cell(&mut ctx.rng, &b, a);
+                    let r = emit(ctx, &base, enc, &[c.clone()]);
+                    let t = r.top.as_ref().and_then(str_of_cell);
+                    ctx.check(t.is_some() && t == t0, || line(enc, &[c.clone()]), || format!("same text as the aligned bytes: {:?}", t0), || r.out.clone());
+                }
+            }
+        }
+    }
+
+    // 2. non-multiple-of-8 bit-strings at every alignment: ToBytestrError
+    for len in 1..=(if ctx.thorough { 130 } else { 50 }) {
+        if len % 8 == 0 {
+            continue;
+        }
+        for align in 0..8 {
+            let bits: Vec<bool> = (0..align + len + 5).map(|_| ctx.rng.bool()).collect();
+            let c = Cell::from(bitstr_from_bits(&bits).substr(align, align + len).unwrap());
+            let enc = ENC[(len + align) % 4];
+            let r = emit(ctx, &base, enc, &[c.clone()]);
+            ctx.tag("bitlen:not-multiple-of-8");
+            ctx.check(r.out == "err ToBytestrError", || line(enc, &[c.clone()]), || "err ToBytestrError".into(), || r.out.clone());
+        }
+    }
+
+    // 3. random byte strings, random carriers; mutations of the valid text; arbitrary text
+    let max_rand = if ctx.thorough { 200 } else { 64 };
+    for i in 0..ctx.n {
+        let enc = ENC[i % 4];
+        let kind = ctx.rng.below(100);
+        if kind < 45 {
+            let n = if ctx.rng.chance(70) { ctx.rng.below(21) } else { ctx.rng.below(max_rand + 1) };
+            let b: Vec<u8> = match ctx.rng.below(4) {
+                0 => (0..n).map(|_| *ctx.rng.pick(&[0u8, 0xff, 0x80, 0x01, 0x7f])).collect(),
+                1 => (0..n).map(|_| (32 + ctx.rng.below(95)) as u8).collect(),
+                _ => (0..n).map(|_| ctx.rng.next_u64() as u8).collect(),
+            };
+            let (c, tag) = carrier(ctx, &b, 0);
+            ctx.tag(&format!("carrier:{}", tag));
+            let sentinel = ctx.rng.chance(15);
+            let text = roundtrip(ctx, &base, enc, c.clone(), &b, sentinel);
+            accept_oracle(ctx, &base, enc, &c);
+            if let Some(text) = text {
+                if ctx.rng.chance(60) {
+                    let (m, tag) = mutate(ctx, enc, &text);
+                    ctx.tag(tag);
+                    let sentinel = ctx.rng.chance(10);
+                    decode_oracle(ctx, &base, enc, &m, sentinel);
+                }
+            }
+        } else if kind < 60 {
+            let (c, tag) = bad_carrier(ctx);
+            ctx.tag(&format!("carrier:{}", tag));
+            accept_oracle(ctx, &base, enc, &c);
+        } else if kind < 95 {
+            let (t, tag) = random_text(ctx, enc);
+            ctx.tag(tag);
+            let sentinel = ctx.rng.chance(10);
+            decode_oracle(ctx, &base, enc, &t, sentinel);
+        } else {
+            // not text at all / empty stack: the decode words answer nil (the glue swallows every failure),
+            // the encode words report the failure
+            let w = if ctx.rng.bool() { dec_of(enc) } else { enc.to_string() };
+            let args: Vec<Cell> = if ctx.rng.chance(30) { vec![] } else { vec![gen_other(&mut ctx.rng)] };
+            let args = if args.len() == 1 && matches!(args[0].value(), Cell::Str(_)) && w.ends_with('>') { vec![Cell::Int(1)] } else { args };
+            ctx.tag(if args.is_empty() { "arg:empty-stack" } else { "arg:other-type" });
+            let r = emit(ctx, &base, &w, &args);
+            ctx.check(r.out != "panic", || line(&w, &args), || "no panic".into(), || r.out.clone());
+        }
+    }
+
+    // 4. exhaustive small scopes: every text of length ≤ 2 (quick) / ≤ 3 (thorough, reduced alphabet) over
+    //    alphabet ∪ {padding, one outsider}, every single byte 0..=255 as a one-byte string where it is valid UTF-8
+    for enc in ENC {
+        let mut sym: Vec<char> = alphabet(enc).chars().collect();
+        sym.push('=');
+        sym.push('#');
+        sym.push('`');
+        sym.push('u');
+        sym.push('U');
+        sym.sort();
+        sym.dedup();
+        for a in &sym {
+            ctx.tag("exhaustive:len1");
+            decode_oracle(ctx, &base, enc, &a.to_string(), false);
+        }
+        let stride = if ctx.thorough { 1 } else { 3 };
+        let mut k = 0;
+        for a in &sym {
+            for b in &sym {
+                k += 1;
+                if k % stride != 0 {
+                    continue;
+                }
+                ctx.tag("exhaustive:len2");
+                decode_oracle(ctx, &base, enc, &format!("{}{}", a, b), false);
+            }
+        }
+        for c in 0u32..=0x7f {
+            ctx.tag("exhaustive:byte-in-valid-frame");
+            // one arbitrary ASCII byte inside an otherwise valid frame
+            let frame = match *enc {
+                "base64" => format!("QUJ{}", char::from_u32(c).unwrap()),
+                "zero85" => format!("Hell{}", char::from_u32(c).unwrap()),
+                "base32" => format!("MZXW6YT{}", char::from_u32(c).unwrap()),
+                _ => format!("Z0Z0Z0Z{}", char::from_u32(c).unwrap()),
+            };
+            decode_oracle(ctx, &base, enc, &frame, false);
+        }
+    }
+    // z85 tail scopes: every tail shape `#…#` + letters, including the all-marks chunk
+    for marks in 0..=5 {
+        for body in ["", "00000", "HelloWorld"] {
+            for fill in ["0", "1", "#", "%", "$"] {
+                let tail: String = "#".repeat(marks) + &fill.repeat(5 - marks);
+                ctx.tag("z85:tail-shape");
+                decode_oracle(ctx, &base, "zero85", &format!("{}{}", body, tail), false);
+            }
+        }
+    }
+}
